@@ -55,6 +55,8 @@ var fieldNames = map[string][]string{
 	"uj":     {"U", "V", "S", "G", "J", "R", "RP"},
 	"render": {"R", "RP"},
 	"lex":    {"LEX"},
+	"spec":   {"OK"},
+	"noop":   {},
 }
 
 // printed fields: the model prefixes the text with c: (clean, compared exactly) or u: (not modelled exactly)
@@ -129,7 +131,8 @@ func outcomeKind(f string) string {
 func fieldAgrees(name string, p *Probe) bool {
 	iv, mv := p.Impl[name], p.Model[name]
 	if p.Loose && looseField[name] {
-		return outcomeKind(iv) == outcomeKind(mv)
+		// the tree holds a decoded map/slice whose text is not modelled: only "returns normally" is compared
+		return (iv == "panic") == (mv == "panic")
 	}
 	if printedField[name] {
 		if strings.HasPrefix(mv, "ok:c:") {
@@ -202,6 +205,20 @@ func probesOf(c *Case) []*Probe {
 	switch c.Kind {
 	case "q", "tree":
 		return []*Probe{qProbe(c.S, c.DF)}
+	case "qimpl":
+		// implementation only (inputs too large to be worth a model comparison): the probe asks the model nothing
+		q := qProbe(c.S, c.DF)
+		q.Req = "ping"
+		q.Op = "noop"
+		return []*Probe{q}
+	case "qwf":
+		// the implementation's tree is judged by the model's independent shape check (C10)
+		q := qProbe(c.S, c.DF)
+		ps := []*Probe{q}
+		if strings.HasPrefix(q.Impl["P"], "ok:") {
+			ps = append(ps, &Probe{Op: "spec", Req: "spec\twellformed\t" + q.Impl["P"][3:], Impl: map[string]string{"OK": "1"}})
+		}
+		return ps
 	case "pair":
 		return []*Probe{qProbe(c.S, c.DF), qProbe(c.S2, c.DF2)}
 	case "lex":
@@ -351,10 +368,10 @@ func runCheck(cfg RunConfig) int {
 			case <-tick.C:
 				for i := range e.started {
 					s := e.started[i].Load()
-					if s != 0 && time.Since(time.Unix(0, s)) > 20*time.Second {
+					if s != 0 && time.Since(time.Unix(0, s)) > 180*time.Second {
 						c, _ := e.watch[i].Load().(Case)
 						path := filepath.Join(cfg.ReplayDir, cfg.Prop+"-hang.json")
-						writeJSON(path, Failure{Case: c, Class: "crash", Clause: "implementation call exceeded 20s"})
+						writeJSON(path, Failure{Case: c, Class: "crash", Clause: "an implementation call did not return within 180 s (json.Marshal of a 10^4-deep tree, the slowest legitimate call, is quadratic and takes about 30 s)"})
 						fmt.Printf("VIOLATION property=%s replay=%s\n", cfg.Prop, path)
 						os.Exit(1)
 					}
